@@ -111,6 +111,15 @@ def c12_battery(binary):
     def three(root):
         for n, data in (("a.bin", b"aaXX11" + b"Q" * 3000), ("b.bin", b"aaYY22" + b"Q" * 3000), ("c.bin", b"aaXX11" + b"Q" * 3000)):
             open(os.path.join(root, n), "wb").write(data)
+    # the same command with and without --in-place hashes different bytes (the program's output vs the file it worked on)
+    def inplace_files(root):
+        for n, data in (("a.bin", b"AAAAxxxx111"), ("b.bin", b"AAAAyyyy222")):
+            p = os.path.join(root, n)
+            open(p, "wb").write(data)
+            os.utime(p, ns=ns(T0, 100))
+        return ["--transform", "head -c 4 $IN"]
+    hist("the same transform command with and without --in-place",
+         [inplace_files, lambda r: ["--transform", "head -c 4 $IN", "--in-place"], lambda r: ["--transform", "head -c 4 $IN"]])
     hist("switching --hash-fn / --transform between cached runs",
          [lambda r: three(r) or ["--hash-fn", "metro"], lambda r: ["--hash-fn", "blake3"], lambda r: ["--hash-fn", "sha256"],
           lambda r: ["--transform", "cat"], lambda r: ["--transform", "dd count=2 bs=1"], lambda r: ["--transform", "dd count=6 bs=1"],
